@@ -23,3 +23,15 @@ run h3 3 C03,C07,C18
 run h3 4 C15
 run h3 5 C09
 run h3 6 C10
+run h4 1 C03,C06,C14
+run h4 2 C04
+run h4 3 C06,C03
+run h4 4 C03
+run h4 5 C16,C05
+run h4 6 C05,C16,C14
+run h6 1 C20
+run h6 2 C20
+run h6 3 C15
+run h6 4 C09,C11
+run h6 5 C10
+run h6 6 C13,C05,C04
